@@ -11,6 +11,9 @@ def main():
     r = subprocess.run(["git", "-C", "/repo", "apply", "--exclude=tests/*", "--exclude=demo/*", "--exclude=SEED.md", patch], capture_output=True, text=True)
     if r.returncode: print("patch does not apply:", r.stderr); return 2
     res = {}
+    import shutil
+    ev, bak = os.path.join(V, "evidence"), os.path.join(V, "build", "evidence.before-seedrun")
+    shutil.rmtree(bak, ignore_errors=True); shutil.copytree(ev, bak)        # the evidence files describe runs on /repo itself: put them back afterwards
     try:
         def one(p):
             o = subprocess.run([os.path.join(V, "check"), p, "quick"], capture_output=True, text=True, cwd=V, timeout=1800)
@@ -26,6 +29,7 @@ def main():
     finally:
         subprocess.run(["git", "-C", "/repo", "checkout", "--", "."], check=True)
         subprocess.run(["git", "-C", "/repo", "clean", "-fdq", "--", "src"], check=False)
+        shutil.rmtree(ev, ignore_errors=True); shutil.copytree(bak, ev)
     print(json.dumps(res))
 if __name__ == "__main__":
     sys.exit(main() or 0)
